@@ -190,12 +190,14 @@ unsafe fn copy_bytes(src: *const u8, dst: *mut u8, count: usize){
     }
 
     if dst as *const u8 <= src {
+        #[cfg_attr(kani, kani::loop_invariant(crate::kani_verif::k1_lib::cb_inv_fwd(src, dst, count, kani::index)))]
         for i in 0..count{
             *dst.add(i) = *src.add(i);
         }
     } else {
         // dst is above src: the ranges may overlap, copy backwards (like memmove).
         let mut i = count;
+        #[cfg_attr(kani, kani::loop_invariant(crate::kani_verif::k1_lib::cb_inv_bwd(src, dst, count, i)))]
         while i != 0 {
             i -= 1;
             *dst.add(i) = *src.add(i);
